@@ -10,6 +10,7 @@ import (
 	"encoding/json"
 	"fmt"
 	"os"
+	"sync"
 	"testing"
 )
 
@@ -18,7 +19,24 @@ type vEntry []byte
 func (e vEntry) GetHash() []byte { return []byte(e) }
 
 type vMerkleCase struct {
-	Leaves []string `json:"leaves"`
+	Leaves  []string   `json:"leaves"`
+	Conc    [][]string `json:"conc,omitempty"` // concurrent mode: several leaf lists recomputed by many goroutines at once
+	Workers int        `json:"workers,omitempty"`
+	Iters   int        `json:"iters,omitempty"`
+}
+
+func vRootOf(leaves []string) (res string) {
+	defer func() {
+		if r := recover(); r != nil {
+			res = "panic: " + fmt.Sprint(r)
+		}
+	}()
+	entries := make([]MerkleEntry, len(leaves))
+	for i, l := range leaves {
+		b, _ := hex.DecodeString(l)
+		entries[i] = vEntry(b)
+	}
+	return hex.EncodeToString(CalculateMerkleRoot(entries))
 }
 
 func TestVerifMerkleEngine(t *testing.T) {
@@ -38,6 +56,37 @@ func TestVerifMerkleEngine(t *testing.T) {
 		if err := json.Unmarshal(sc.Bytes(), &c); err != nil {
 			t.Fatal(err)
 		}
+		if c.Conc != nil {
+			want := make([]string, len(c.Conc))
+			for i, l := range c.Conc {
+				want[i] = vRootOf(l)
+			}
+			var mu sync.Mutex
+			var wg sync.WaitGroup
+			bad := []map[string]interface{}{}
+			for g := 0; g < c.Workers; g++ {
+				wg.Add(1)
+				go func(g int) {
+					defer wg.Done()
+					for it := 0; it < c.Iters; it++ {
+						for k := range c.Conc {
+							i := (k*(g+1) + it + g) % len(c.Conc)
+							if got := vRootOf(c.Conc[i]); got != want[i] {
+								mu.Lock()
+								if len(bad) < 5 {
+									bad = append(bad, map[string]interface{}{"list": i, "n": len(c.Conc[i]), "want": want[i], "got": got, "goroutine": g})
+								}
+								mu.Unlock()
+							}
+						}
+					}
+				}(g)
+			}
+			wg.Wait()
+			b, _ := json.Marshal(map[string]interface{}{"conc": true, "want": want, "mismatches": bad})
+			fmt.Fprintln(w, string(b))
+			continue
+		}
 		entries := make([]MerkleEntry, len(c.Leaves))
 		for i, l := range c.Leaves {
 			b, _ := hex.DecodeString(l)
@@ -54,6 +103,14 @@ func TestVerifMerkleEngine(t *testing.T) {
 			o["root"] = hex.EncodeToString(CalculateMerkleRoot(entries))
 			o["tree_len"] = len(tree)
 			o["last"] = hex.EncodeToString(tree[len(tree)-1])
+			if len(entries) == 0 {
+				// is the root handed out for an empty list the package-level nilHash slice itself?
+				r1 := CalculateMerkleRoot(nil)
+				r1[0] ^= 0xff
+				r2 := CalculateMerkleRoot(nil)
+				o["empty_root_is_shared_slice"] = r2[0] != 0
+				r1[0] ^= 0xff // restore
+			}
 		}()
 		b, _ := json.Marshal(o)
 		fmt.Fprintln(w, string(b))
